@@ -295,7 +295,7 @@ def _ifftc(input, oshape=None, axes=None, norm="ortho"):
 
 def _scale_coord(coord, shape, oversamp):
     ndim = coord.shape[-1]
-    output = coord.copy()
+    output = coord.astype(np.result_type(coord.dtype, np.float32))
     for i in range(-ndim, 0):
         scale = ceil(oversamp * shape[i]) / shape[i]
         shift = ceil(oversamp * shape[i]) // 2
